@@ -9,7 +9,10 @@ from __future__ import annotations
 
 import itertools
 
+import os
+
 from vf.props import railsworld as rw
+from vf.props import c16_conc, c16_shapes
 from vf.props.c01 import outcomes
 
 PROP = "C16"
@@ -141,6 +144,15 @@ def explore_same_rail_twice(_task):
 def explore(task):
     if task[0] == "same-rail-twice":
         return explore_same_rail_twice(task)
+    if task[0] == "text-shapes":
+        return c16_shapes.explore(task)
+    if task[0] == "conc":
+        r = c16_conc.explore(task[1:])
+        out = {"conc_" + k: v for k, v in r.items() if k not in ("viol", "complete")}
+        out["conc_incomplete"] = 0 if r["complete"] else 1
+        out["viol"] = r["viol"]
+        out["sample"] = r.get("sample")
+        return out
     dialog_world, subsets = task[:2]
     variable_refusal = len(task) > 2 and task[2] == "variable-refusal"
     res = {"evaluations": 0, "rails_only_cases": 0, "blocked_cases": 0, "rewritten_cases": 0, "viol": []}
@@ -337,33 +349,60 @@ def run(rep, tier):
     subs = all_subsets()
     ts = []
     for dw in (False, True):
-        for i in range(0, len(subs), 2):
-            ts.append((dw, subs[i:i + 2]))
+        for sub in subs:
+            ts.append((dw, [sub]))
+    # the pool hands tasks out in order: the selections with the largest verdict tables (input and output rails, no dialog) first
+    ts.sort(key=lambda t: (-(("input" in t[1][0]) + ("output" in t[1][0])), "dialog" in t[1][0]))
     ts.append((False, [x for x in subs if "input" in x], "variable-refusal"))
     ts.append(("same-rail-twice",))
-    agg = {}
+    seed = int(os.environ.get("VERIF_SEED", 0) or 0)
+    conc = c16_conc.tasks(tier, seed)
+    ts += [("conc",) + t for t in conc]
+    ts += c16_shapes.tasks()
+    agg, extra_samples = {}, {}
     for r in par.pmap(explore, ts):
         for k, v in r.items():
             if isinstance(v, int):
                 agg[k] = agg.get(k, 0) + v
         for sig, what, info in r["viol"]:
             rep.violation(sig, what, info)
+        if r.get("sample"):
+            extra_samples.setdefault(r["sample"]["family"], r["sample"])     # one observed case per new family
+    incomplete = agg.pop("conc_incomplete", 0)
     for k, v in agg.items():
         rep.set(k, v)
     rep.set("option_subsets", len(subs))
     rep.set("distinct_nontrivial", agg.get("rails_only_cases", 0) + agg.get("blocked_cases", 0))
     rep.set("rule", "16 subsets x {list, dict} form x every effective verdict vector of 2 input / 2 output rails x supplied bot message y/n x dialog path x {plain, hostile} text; "
-                    "non-trivial = rails-only cases (dialog not selected) + cases in which a rail blocked")
-    rep.set("exhaustive", True)
+                    f"{len(c16_shapes.SHAPES)} text shapes (leading `$`, names of context variables, empty / blank, literals of the language) x position (user text, prompt=, "
+                    "supplied bot message, text a rail rewrites into) x {accept, reject}; "
+                    "non-trivial = rails-only cases (dialog not selected) + cases in which a rail blocked.  "
+                    "conc_*: two overlapping rails-only generate_async calls on one instance, every pair of request kinds "
+                    f"({', '.join(c16_conc.KINDS)}) with at most {c16_conc.quick_bound(tier)} rail actions in total, every arrival / rail-completion order "
+                    "(virtual event loop, quiescence granularity); conc_overlapping_executions = schedules in which the second call arrived while a rail of the first was pending")
+    rep.set("text_shapes", len(c16_shapes.SHAPES))
+    rep.set("conc_request_kind_sets", len(conc))
+    rep.set("exhaustive", not incomplete)
+    if incomplete:
+        rep.set("cap_hit", f"{incomplete} of {len(conc)} concurrent explorations stopped at their time budget; the sequential families were enumerated completely")
     rep.assumptions += [
         "the supplied bot message uses role `assistant` (the role LLMRails reads; the guide's example says `bot`)",
         "an empty selection and selections with `output` but without a bot message and without dialog are outside the statement",
+        "text-shape family: the instance's events cache is emptied before every call (the shapes are fixed texts; the cache is C15's subject)",
+        "concurrent part: the suspension points of a rails-only call are its rail actions (each awaits an explorer-owned future); "
+        "external completions land at quiescent points of the loop; a request is attributed to its call through a context variable set by the calling task",
     ]
     rep.sample({"subset": ["input", "output"], "form": "list", "in_outcome": "AW", "out_outcome": "R", "supplied": True})
     rep.sample({"subset": ["input"], "form": "dict", "in_outcome": "WA"})
+    for smp in extra_samples.values():
+        rep.sample(smp)
 
 
 def replay(rp):
+    if rp.get("part") == "conc":
+        return c16_conc.replay(rp)
+    if rp.get("part") == "text-shape":
+        return c16_shapes.replay(rp)
     world = rw.World(
         "".join((v1_rail_variable_refusal(r) if rp.get("variable_refusal") else rw.v1_rail(r, "input")) for r in IN_ORDER) + "".join(rw.v1_rail(r, "output") for r in OUT_ORDER)
         + (rw.V1_DIALOG if rp["dialog_world"] else "") + RET,
